@@ -597,12 +597,19 @@ func ruleDigitRunStart(e *Env, rule string, scan *ssa.Function, call *ssa.Call, 
 		return
 	}
 	if back != nil {
-		entryOK := false
+		// every way into the loop starts it at the first differing position (one of them is not enough: `if s[i] ==
+		// '-' { i++ }` in front of the loop joins in its header)
+		entryOK, nEntry := true, 0
 		for _, ed := range ph.Edges {
-			if ed != ssa.Value(back) && entry(ed) {
-				entryOK = true
+			if ed == ssa.Value(back) {
+				continue
+			}
+			nEntry++
+			if !entry(ed) {
+				entryOK = false
 			}
 		}
+		entryOK = entryOK && nEntry > 0
 		if !entryOK {
 			bad("the loop that moves the cut back does not start at the first differing position")
 			return
